@@ -1,6 +1,7 @@
 package main
 
 import (
+	"bytes"
 	"encoding/base64"
 	"fmt"
 	"strconv"
@@ -21,7 +22,7 @@ func init() {
 		Rule: "a case is one (secret, server name, user ID, duration) issue tuple: the genuine token is validated under the issuing and under other secrets / user IDs, then altered ~45 ways (bit flips over the whole binary token, truncation, extension; holder-side appended caveats; re-minted tokens lacking or duplicating caveats, with past / future expiry, under another key); expiry is additionally observed in real time by polling tokens of 1-3 s (quick) and of the 120 s default across minute boundaries (thorough); " +
 			"distinct = distinct (tuple, alteration); non-trivial = every altered or cross-validated token (the untouched genuine token alone is trivial)",
 		Assumptions: []string{"gopkg.in/macaroon.v2 (the library's own dependency) to build altered tokens", "wall clock for the real-time expiry monitor, one-sided regions only (valid if < d-1 s since before issue, invalid if >= d s since after issue)",
-			"abstains on byte edits after which the token still decodes to the same identifier, caveats and signature (unauthenticated location hint, trailing bytes)"},
+			"every alteration of the token string counts, also those after which it still decodes to the same identifier, caveats and signature (location, trailing bytes, line breaks, base64 slack bits, V1 re-encoding)"},
 		Shards: func(string) int { return 4 },
 		Watchdog: func(t string) time.Duration {
 			return 20 * time.Minute
@@ -169,16 +170,52 @@ func runC20(c *mon.Ctx) {
 				b[pos] ^= 1 << uint(ar.Intn(8))
 				alt := base64.RawURLEncoding.EncodeToString(b)
 				if sameMacaroon(b, m) {
-					c.Count("abstained_same_macaroon")
+					// the flip hit encoding slack or the location, which the macaroon signature does not cover: altered all the same
+					reject("bit-flip-outside-signed-material", op, alt)
 					continue
 				}
 				reject("bit-flip", op, alt)
 			}
 			reject("truncated", op, base64.RawURLEncoding.EncodeToString(bin[:len(bin)-1-ar.Intn(len(bin)/2)]))
-			if ext := append(append([]byte{}, bin...), byte(ar.Intn(256))); !sameMacaroon(ext, m) {
-				reject("extended", op, base64.RawURLEncoding.EncodeToString(ext))
-			} else {
-				c.Count("abstained_same_macaroon")
+			reject("extended", op, base64.RawURLEncoding.EncodeToString(append(append([]byte{}, bin...), byte(ar.Intn(256)))))
+			reject("extended-junk", op, base64.RawURLEncoding.EncodeToString(append(append([]byte{}, bin...), "\x00junk!"...)))
+			// alterations of the token string that decode to the very same macaroon
+			k := 1 + ar.Intn(len(tok)-1)
+			reject("newline-inserted", op, tok[:k]+"\n"+tok[k:])
+			reject("crlf-appended", op, tok+"\r\n")
+			if last := tok[len(tok)-1]; len(tok)%4 != 0 {
+				const alphabet = "ABCDEFGHIJKLMNOPQRSTUVWXYZabcdefghijklmnopqrstuvwxyz0123456789-_"
+				for i := 0; i < len(alphabet); i++ {
+					cand := tok[:len(tok)-1] + string(alphabet[i])
+					if alphabet[i] == last {
+						continue
+					}
+					if b, err := base64.RawURLEncoding.DecodeString(cand); err == nil && string(b) == string(bin) {
+						reject("last-character-slack-bits", op, cand)
+						break
+					}
+				}
+			}
+			{
+				// the same macaroon in the older (V1 packet) binary format
+				packet := func(field string, data []byte) []byte {
+					n := 4 + len(field) + 1 + len(data) + 1
+					return append(append([]byte(fmt.Sprintf("%04x%s ", n, field)), data...), '\n')
+				}
+				var v1 []byte
+				v1 = append(v1, packet("location", []byte(m.Location()))...)
+				v1 = append(v1, packet("identifier", m.Id())...)
+				for _, cv := range m.Caveats() {
+					v1 = append(v1, packet("cid", cv.Id)...)
+				}
+				v1 = append(v1, packet("signature", m.Signature())...)
+				reject("re-encoded-as-v1", op, base64.RawURLEncoding.EncodeToString(v1))
+			}
+			if i := bytes.Index(bin, []byte(server)); i >= 0 && len(server) > 0 {
+				// the issuing server's name as carried in the token
+				b := append([]byte{}, bin...)
+				b[i] ^= 0x01
+				reject("server-name-in-token-changed", op, base64.RawURLEncoding.EncodeToString(b))
 			}
 			reject("empty", op, "")
 			reject("not-base64", op, tok+"*")
